@@ -57,6 +57,8 @@ pub fn first_exceeded_limit(
     counts: &ProgramCounts<'_>,
     caps: AnalysisCaps,
 ) -> Option<AnalysisLimit> {
+    #[cfg(naijascript_verif)]
+    let caps = crate::verif::analysis_caps().unwrap_or(caps);
     let function_count = facts.functions.len() as u64;
     if function_count > u64::from(caps.max_functions) {
         return Some(AnalysisLimit {
